@@ -389,6 +389,84 @@ func runC02(c *Check) {
 			}
 		}
 	}
+	c.validityGateContent()
+}
+
+// validityGateContent (R9): the gate every parse passes through treats the three entity
+// tables alike.  For each id table CheckValid builds (mappings, functions, locations), the
+// insertion of an element is preceded by a nil test of the element, a zero test of its id
+// and a uniqueness test (the id is looked up in the table first, or the table's size is
+// compared with the list's afterwards).  A check present for two kinds and missing for the
+// third lets a document through in which "the location with id n" is ambiguous.
+func (c *Check) validityGateContent() {
+	p := c.P
+	cv := c.anchorFn("C02-R9", "profile", "(*Profile).CheckValid")
+	if cv == nil {
+		return
+	}
+	n := 0
+	for _, b := range cv.Blocks {
+		for _, ins := range b.Instrs {
+			mu, ok := ins.(*ssa.MapUpdate)
+			if !ok {
+				continue
+			}
+			mk, ok := mu.Map.(*ssa.MakeMap)
+			if !ok {
+				continue
+			}
+			mt := mk.Type().Underlying().(*types.Map)
+			kind := typeShort(mt.Elem())
+			n++
+			elem := mu.Value
+			has := map[string]bool{}
+			for _, b2 := range cv.Blocks {
+				for _, i2 := range b2.Instrs {
+					cmp, ok := i2.(*ssa.BinOp)
+					if !ok || (cmp.Op != token.EQL && cmp.Op != token.NEQ) {
+						continue
+					}
+					dom := b2 == b || b2.Dominates(b)
+					for _, pair := range [][2]ssa.Value{{cmp.X, cmp.Y}, {cmp.Y, cmp.X}} {
+						x, y := pair[0], pair[1]
+						// element == nil
+						if dom && x == elem && isNilConst(y) {
+							has["nil element"] = true
+						}
+						// element.ID == 0
+						if ld, ok := x.(*ssa.UnOp); dom && ok && ld.Op == token.MUL {
+							if fa, ok := ld.X.(*ssa.FieldAddr); ok && fa.X == elem {
+								if _, F := fieldOf(fa.X.Type(), fa.Field); F == "ID" {
+									if k, ok := constInt(y); ok && k == 0 {
+										has["zero id"] = true
+									}
+								}
+							}
+						}
+						// table[id] != nil before the insertion
+						if lk, ok := x.(*ssa.Lookup); dom && ok && lk.X == ssa.Value(mk) && isNilConst(y) {
+							has["unique id"] = true
+						}
+						// len(table) != len(list) after the loop
+						if lx := lenArg(x); lx == ssa.Value(mk) && lenArg(y) != nil {
+							has["unique id"] = true
+						}
+					}
+				}
+			}
+			for _, what := range []string{"nil element", "zero id", "unique id"} {
+				key := "gate:" + kind + ":" + what
+				if has[what] {
+					c.ok("C02-R9", key, p.relFile(mu.Pos()), "CheckValid tests "+what+" for "+kind, "a comparison on the path to the table insertion (or a size comparison of table and list)")
+				} else {
+					c.bad("C02-R9", key, p.relFile(mu.Pos()), "CheckValid inserts "+kind+" into its id table without a "+what+" test although the other entity kinds have one: a document with such a "+kind+" is returned as a valid profile (with duplicate ids the last one silently wins and samples refer to an ambiguous entity)")
+				}
+			}
+		}
+	}
+	if n != 3 {
+		c.undecided("C02-R9", "gate:tables", p.relFile(cv.Pos()), fmt.Sprintf("expected three id tables in CheckValid, found %d", n))
+	}
 }
 
 func sameProfileValue(a, b ssa.Value) bool {
